@@ -1974,6 +1974,7 @@ private:
                                 parser.update(column_defaults_[column_index_ - offset_].data(),column_defaults_[column_index_ - offset_].length());
                                 parser.parse_some(visitor);
                                 parser.finish_parse(visitor);
+                                more_ = !cursor_mode_;
                             }
                             else
                             {
@@ -2008,6 +2009,7 @@ private:
                                     parser.update(column_defaults_[column_index_ - offset_].data(),column_defaults_[column_index_ - offset_].length());
                                     parser.parse_some(visitor);
                                     parser.finish_parse(visitor);
+                                    more_ = !cursor_mode_;
                                 }
                                 else
                                 {
@@ -2048,6 +2050,7 @@ private:
                                 parser.update(column_defaults_[column_index_ - offset_].data(),column_defaults_[column_index_ - offset_].length());
                                 parser.parse_some(visitor);
                                 parser.finish_parse(visitor);
+                                more_ = !cursor_mode_;
                             }
                             else
                             {
@@ -2071,6 +2074,7 @@ private:
                             parser.update(column_defaults_[column_index_ - offset_].data(),column_defaults_[column_index_ - offset_].length());
                             parser.parse_some(visitor);
                             parser.finish_parse(visitor);
+                            more_ = !cursor_mode_;
                         }
                         else
                         {
